@@ -329,6 +329,13 @@ func c19Gateway(l *Lab, rep *Report, rnd *rand.Rand, dir string) {
 		c19Randomise(rnd, &a.Settings, 40)
 		a.Settings.Domain = "templatedomain"
 		a.Settings.Username = "templateuser"
+		// the template also tries to set what the gateway must control
+		a.Settings.GatewayCredentialsSource = i % 5
+		a.Settings.GatewayCredentialMethod = (i % 2) * 2
+		a.Settings.GatewayUsageMethod = 2 + i%3
+		a.Settings.GatewayHostname = "template-gateway.example:444"
+		a.Settings.FullAddress = "template-host.example:3390"
+		a.Settings.GatewayAccessToken = "template-token"
 		text := a.String()
 		pth := filepath.Join(dir, fmt.Sprintf("gwtpl-%d.rdp", i))
 		os.WriteFile(pth, []byte(text), 0600)
@@ -373,6 +380,18 @@ func c19Gateway(l *Lab, rep *Report, rnd *rand.Rand, dir string) {
 			if f.Settings["username"] != wantUser || f.Settings["domain"] != wantDom {
 				rep.Violate("C19/user-or-domain-in-template-file", fmt.Sprintf("download %d by %q (split=%v, nousername=%v): username %q domain %q, want %q / %q", ui, u, cfg.SplitUserDomain, cfg.NoUsername,
 					f.Settings["username"], f.Settings["domain"], wantUser, wantDom), map[string]any{"body": trunc(f.Raw, 800)})
+			}
+			// the settings the gateway controls carry the gateway's values, whatever the template says
+			wantCtl := map[string]string{"gatewaycredentialssource": "5", "gatewayprofileusagemethod": "1", "gatewayusagemethod": "1",
+				"full address": b.Addr(), "gatewayhostname": g.Addr}
+			for k, wv := range wantCtl {
+				if f.Settings[k] != wv {
+					rep.Violate("C19/controlled-setting-from-template/"+strings.ReplaceAll(k, " ", "-"), fmt.Sprintf("download %d by %q (split=%v, nousername=%v): %s is %q, the gateway must set %q (template: %q)", ui, u, cfg.SplitUserDomain, cfg.NoUsername,
+						k, f.Settings[k], wv, tpl.Settings[k]), map[string]any{"body": trunc(f.Raw, 800)})
+				}
+			}
+			if tok := f.Settings["gatewayaccesstoken"]; strings.Count(tok, ".") != 2 || tok == "template-token" {
+				rep.Violate("C19/controlled-setting-from-template/gatewayaccesstoken", fmt.Sprintf("download %d by %q: gatewayaccesstoken is %q, not a token minted for this download", ui, u, trunc(tok, 40)), nil)
 			}
 			// the body must be readable by the gateway's own reader
 			p2 := filepath.Join(dir, "gwbody.rdp")
